@@ -755,12 +755,8 @@ pub fn run_pass(ctx: &Ctx, sc: &Scenario, inject: bool) -> PassResult {
         }
 
         // ---- the configuration this step stands for
-        if transp_fired && !hard_fired {
-            if ok0 {
-                res.probes.transparent_fault_then_exit0 += 1;
-            } else {
-                res.probes.transparent_fault_then_nonzero += 1;
-            }
+        if transp_fired && !hard_fired && ok0 {
+            res.probes.transparent_fault_then_exit0 += 1;
         }
         let p_after: Option<Result<ParamsConfig, String>> = if step.kind == "A" {
             step.save_params.as_ref().map(|n| match after.get(n) {
@@ -804,11 +800,19 @@ pub fn run_pass(ctx: &Ctx, sc: &Scenario, inject: bool) -> PassResult {
 
         if !ok0 {
             // failure is acceptable after a fault, or where the library itself panics
+            let lib_panics = cfg.as_ref().map(|c| reference(c).is_none());
             if !rec.fired.is_empty() {
+                if transp_fired && !hard_fired && lib_panics == Some(false) {
+                    // accepted (the property does not promise that EINTR / short transfers are
+                    // survived), but worth seeing: it stays at 0 while the tool uses write_all
+                    res.probes.transparent_fault_then_nonzero += 1;
+                }
+                if lib_panics == Some(true) {
+                    res.probes.library_reference_panicked += 1;
+                }
                 res.steps.push(rec);
                 continue;
             }
-            let lib_panics = cfg.as_ref().map(|c| reference(c).is_none());
             match lib_panics {
                 Some(true) => {
                     res.probes.library_reference_panicked += 1;
